@@ -167,6 +167,111 @@ def build(shape, pat, lcv, late, flav="P", t1_at=None, wrap_at=None, wrap_route_
     return {"id": sid, "family": "scope", "bp": {"ops": ops_of("R")}, "scope": meta}
 
 
+# --------------------------------------------------------------------------------------------------
+# generic-vs-concrete members: constructors of one instantiated type (Wrap<T0P>) that are generic (Wrap<T>) in some
+# blueprints and concrete in others
+# --------------------------------------------------------------------------------------------------
+GC_FN = {"G0": "C_WRAP_GENERIC0", "G1": "C_WRAP_GENERIC1", "C0": "C_WRAP_T0P_C0", "C1": "C_WRAP_T0P_C1",
+         "GI": "C_WRAP_GENERIC", "CI": "C_WRAP_T0P_CIN"}  # GI / CI take &T0P (T0P registered once, in the root)
+
+
+def gc_kind(cid):
+    return "generic" if "GENERIC" in cid else "concrete"
+
+
+def build_gc(shape, assign, lc="request_scoped", late=False):
+    """assign: {bp: [registration codes]} -> spec. Every blueprint gets a route taking &Wrap<T0P> if a registration is
+    visible from it. Judged: the nearest enclosing blueprint with a registration designates it (C04: 'the registration
+    in the nearest enclosing (nested) blueprint wins'; RoutingModifiers::nest rustdoc 'Precedence'), whatever its
+    genericity. A generic and a concrete registration (or two generic ones) in the SAME blueprint: recorded only."""
+    bps = list(SHAPES[shape])
+    regs = {bp: [GC_FN[c] for c in assign.get(bp, [])] for bp in bps}
+    needs_t0 = any(c in ("GI", "CI") for v in assign.values() for c in v)
+    routes = []
+    for bp in bps:
+        owner = next((x for x in chain_up(shape, bp) if regs[x]), None)
+        info = {"bp": bp}
+        if owner is None:
+            info.update(kind="none", cid=f"H{SLOT[bp]}__0_0_0__I", judged=True)
+        else:
+            lst = regs[owner]
+            outer = [gc_kind(c) for x in chain_up(shape, owner)[1:] for c in regs[x]]
+            info.update(kind="gc", cid=f"HW{SLOT[bp]}_WRAP_T0P", owner=owner, candidates=lst,
+                        shadowed="+".join(sorted(set(outer))) or "nothing")
+            if len(lst) == 1:
+                info.update(judged=True, expect_wrap=lst[0])
+            else:
+                info.update(judged=False, why="several_registrations_in_one_blueprint:" + "+".join(gc_kind(c) for c in lst))
+        routes.append(info)
+
+    def ops_of(bp):
+        ctors = [{"k": "ctor", "c": c, "lc": lc} for c in regs[bp]]
+        if bp == "R" and needs_t0:
+            ctors.append({"k": "ctor", "c": "C_T0P__0__S", "lc": "request_scoped"})
+        body = [{"k": "route", "c": next(r["cid"] for r in routes if r["bp"] == bp)}]
+        for child in bps:
+            if SHAPES[shape][child] == bp:
+                body.append({"k": "nest", "bp": {"ops": ops_of(child)}})
+        return (body + ctors) if late else (ctors + body)
+
+    meta = {"shape": shape, "pattern": assign, "lc": lc[0].upper(), "late": late, "flavour": "P", "regs": regs, "routes": routes,
+            "class": "genconc", "fully_judged": False,  # refmodel does not model generic constructors: direct check only
+            "expect_rejected": False, "two_singletons": False}
+    return {"id": None, "family": "scope", "bp": {"ops": ops_of("R")}, "scope": meta}
+
+
+GC_QUICK = [
+    # generic inner / concrete outer; concrete inner / generic outer; a second generic innermost
+    ("R>A>B", {"R": ["C0"], "A": ["G0"], "B": ["C1"]}),
+    ("R>A>B", {"R": ["G0"], "A": ["C0"], "B": ["G1"]}),
+    # a registration two levels up, of the other kind; the middle blueprint inherits
+    ("R>A>B", {"R": ["C0"], "A": [], "B": ["G0"]}),
+    # generic at two levels
+    ("R>A", {"R": ["G0"], "A": ["G1"]}),
+    # siblings: one generic, one concrete, over a concrete parent / over nothing
+    ("R>A,R>B", {"R": ["C0"], "A": ["G0"], "B": []}),
+    # constructors with an input (T0P registered in the root only): generic inner / concrete outer
+    ("R>A", {"R": ["CI"], "A": ["GI"]}),
+]
+
+
+def gc_specs(tier):
+    if tier == "quick":
+        return [build_gc(shape, assign) for shape, assign in GC_QUICK]
+    out = []
+    seen = set()
+    for shape in ("R>A", "R>A>B", "R>A,R>B"):
+        bps = list(SHAPES[shape])
+        choices = [[], ["G0"], ["G1"], ["C0"], ["C1"]]
+        for combo in itertools.product(choices, repeat=len(bps)):
+            used = [c for v in combo for c in v]
+            if len(used) < 2 or len(set(used)) != len(used) or not any(c.startswith("G") for c in used):
+                continue
+            # canonical: G0 before G1, C0 before C1 in blueprint order
+            if ("G1" in used and "G0" not in used) or ("C1" in used and "C0" not in used):
+                continue
+            if "G1" in used and used.index("G1") < used.index("G0"):
+                continue
+            if "C1" in used and used.index("C1") < used.index("C0"):
+                continue
+            key = (shape, json.dumps(combo))
+            if key in seen:
+                continue
+            seen.add(key)
+            k = len(out)
+            out.append(build_gc(shape, dict(zip(bps, combo)), ["request_scoped", "transient"][k % 2], k % 3 == 1))
+    # with inputs
+    for shape, assign in [("R>A", {"R": ["CI"], "A": ["GI"]}), ("R>A", {"R": ["GI"], "A": ["CI"]}),
+                          ("R>A>B", {"R": ["CI"], "A": ["GI"], "B": ["C0"]}), ("R>A>B", {"R": ["GI"], "A": [], "B": ["CI"]}),
+                          ("R>A,R>B", {"R": [], "A": ["GI"], "B": ["CI"]}), ("R>A,R>B", {"R": ["CI"], "A": ["GI"], "B": ["G0"]})]:
+        out.append(build_gc(shape, assign))
+    # both kinds in ONE blueprint (recorded only)
+    for shape, assign in [("R", {"R": ["G0", "C0"]}), ("R", {"R": ["C0", "G0"]}), ("R>A", {"R": ["C0"], "A": ["G0", "C1"]}),
+                          ("R>A", {"R": ["G0"], "A": ["C0", "G1"]}), ("R", {"R": ["G0", "G1"]})]:
+        out.append(build_gc(shape, assign))
+    return out
+
+
 def enumerate_specs(tier):
     specs = []
     shapes = ["R", "R>A", "R>A,R>B"] + (["R>A>B"] if tier == "thorough" else [])
@@ -222,6 +327,7 @@ def enumerate_specs(tier):
         n = sum(pat.values())
         for lcs in itertools.product("SRT", repeat=n):
             specs.append(build(shape, pat, "".join(lcs), False, "P"))
+    specs.extend(gc_specs(tier))
     for i, s in enumerate(specs):
         s["id"] = f"scope{i:05d}"
     return specs
@@ -279,6 +385,8 @@ def _direct_check(o):
             unspec[f"outer_constructor_needs_T0_registered_only_below_it:{out}"] += 1
         if sc["class"] == "lcmix":
             gen_hist[f"lcmix:{sc['shape']}:{sc['lc']}:{'panic' if g.get('panic') else out}"] += 1
+        if sc["class"] == "genconc" and out != "accepted":
+            gen_hist[f"genconc:{sc['shape']}:{json.dumps(sc['pattern'], sort_keys=True)}:{'panic' if g.get('panic') else out}"] += 1
     for spec, g, build, run, script in _units(o):
         sc = spec.get("scope")
         if not sc or not build or not build["build_ok"] or run is None:
@@ -301,6 +409,28 @@ def _direct_check(o):
                 hist["route_without_injection"] += 1
                 continue
             news = [e for e in events if e["e"] == "new"]
+            if r["kind"] == "gc":
+                mk = [e for e in news if e["type"] == "Wrap"]
+                got = mk[0]["by"] if len(mk) == 1 else (None if not mk else "+".join(e["by"] for e in mk))
+                strip = lambda x: x.split("/")[0].split("#")[0]
+                where = lambda cid: f"{gc_kind(cid)}@{strip(relation(sc['shape'], sc['regs'], r['bp'], cid))}" if cid and cid in GC_FN.values() else str(cid)
+                if not r["judged"]:
+                    unspec[f"gc:{r['why']}:candidates={'+'.join(r['candidates'])}:built_by={got}"] += 1
+                    continue
+                exp = r["expect_wrap"]
+                ok = got == exp
+                hist[f"gc:designated={where(exp)}:shadows={r['shadowed']}:{'ok' if ok else 'WRONG'}"] += 1
+                distinct.add((sc["shape"], json.dumps(sc["pattern"], sort_keys=True), r["bp"], "gc", sc["lc"], sc["late"]))
+                if ok and len(samples) < 4 and r["shadowed"] != "nothing" and not any("Wrap" in json.dumps(x.get("trace")) for x in samples):
+                    samples.append({"spec": spec["id"], "ops": spec["bp"]["ops"], "request": req["path"], "expected_by": exp,
+                                    "trace": resp.get("trace")})
+                if not ok:
+                    pending.append((spec["id"], f"scope:wrong-constructor:gc:designated={where(exp)}:observed={where(got)}",
+                                    f"{spec['id']} {req['path']}: the route in blueprint {r['bp']} of tree {sc['shape']} with Wrap<T0P> registrations "
+                                    f"{sc['regs']} received a Wrap<T0P> built by {got}; the nearest enclosing registration is {exp}",
+                                    {"oracle": "C04", "spec": spec, "request": req, "route": r, "trace": resp.get("trace"),
+                                     "startup_trace": st.get("trace")}))
+                continue
             t0_seen = None  # the registration that built the T0 that (directly or through T1 / Wrap) reached the handler
             problems = []
             if r["kind"] == "t0":
@@ -375,7 +505,11 @@ def oracle_c04_scope(obs, rep, tier):
                 "transient" + (" / mixed, before or after the routes (alternating), flavours P and K+clone-if-necessary" if tier == "thorough" else
                                " (alternating), before or after the routes (alternating)") +
                 ", a route taking &T0 in every blueprint that sees a registration; T1 members (constructor of T1 needing &T0 in one blueprint, "
-                "routes taking &T1 below it) and generic members (C_WRAP_GENERIC specialised by a route taking &Wrap<T0P>). Oracle: the `by` "
+                "routes taking &T1 below it), generic members (C_WRAP_GENERIC specialised by a route taking &Wrap<T0P>) and generic-vs-concrete "
+                "members (constructors of Wrap<T0P> that are generic Wrap<T> in some blueprints and concrete in others: generic inner / "
+                "concrete outer, concrete inner / generic outer, generic at two levels, siblings, with and without an input; a route "
+                "taking &Wrap<T0P> in every blueprint; the nearest enclosing registration must build the value whatever its genericity; "
+                "a generic and a concrete registration in the same blueprint are recorded only). Oracle: the `by` "
                 "field of the tag received by every consumer = registration designated by 'nearest enclosing blueprint, latest registration "
                 "inside a blueprint, parents inherited, siblings/children invisible' (direct check, plus oracles.eval_values on the members "
                 "without undocumented aspects). Members where an outer constructor's dependency is shadowed on the route's chain are recorded, "
@@ -433,7 +567,7 @@ def oracle_c02_scope(obs, rep, tier):
         if not sc or g is None:
             continue
         n += 1
-        if sc["expect_rejected"] or not sc["fully_judged"] or sc["class"] == "lcmix":
+        if sc["expect_rejected"] or not sc["fully_judged"] or sc["class"] in ("lcmix", "genconc"):
             hist[f"outside_class:{sc['class']}:{'accepted' if g['exit'] == 0 else 'rejected'}"] += 1
             continue
         distinct.add(json.dumps(spec["bp"], sort_keys=True))
